@@ -377,9 +377,8 @@ bool Xml::Private::parseElement(Element& element)
           return false;
         continue;
       }
-      else
-        this->pos = pos;
     }
+    this->pos = pos; // not a tag: rewind (also when the look-ahead failed) so that the text keeps its leading white space
     String string;
     if(!parseText(string))
       return false;
